@@ -10,6 +10,7 @@ import json, os, re, shutil, subprocess, sys, tempfile
 
 out_dir, name, prop = sys.argv[1], sys.argv[2], sys.argv[3]
 ENV = dict(os.environ, GOFLAGS="-mod=mod", GOPROXY="off", GOSUMDB="off", GOTOOLCHAIN="local")
+os.makedirs("/tmp/wt", exist_ok=True)
 wt = tempfile.mkdtemp(prefix="confirm-", dir="/tmp/wt")
 os.rmdir(wt)
 def run(cmd, cwd, check=False):
